@@ -30,14 +30,27 @@ HeadersOk(T, wire) ==
      /\ \A i \in 1..Len(ts) : hc[i].c = ts[i].c /\ hc[i].n = ts[i].n
      /\ \A i \in 1..(Len(ts) - 1) : hc[i].f = 1)
 
+EncDevs == {"F1", "F4", "F26", "F28"}
+LibMode(e) == IF e.codec = "der" THEN DERMode ELSE IF e.codec = "cer" THEN CERMode ELSE LibBER(e.def, e.chunk)
+(* the smallest set of named deviations under which the reference encoder reproduces the recorded bytes *)
+Explains(T, v, e) ==
+  LET S == {D \in SUBSET EncDevs : D # {} /\ e.wire = Enc([LibMode(e) EXCEPT !.dev = D], 0, T, v)}
+  IN IF S = {} THEN {} ELSE CHOOSE D \in S : \A D2 \in S : Cardinality(D) <= Cardinality(D2)
+
 JudgeEnc(t, i, T, v, e) ==
-  /\ Check(t, i, "EncRefused", e.st = "ok")
-  /\ e.st = "ok" =>
-      /\ (e.codec = "der" => Check(t, i, "DerIdentity", e.wire = DER(T, v)))
-      /\ (e.codec = "cer" => Check(t, i, "CerCanonical", e.wire = CER(T, v)))
-      /\ Check(t, i, "RefReads", ParsesTo("BER", T, e.wire, v, <<>>))
-      /\ Check(t, i, "OneTLV", LET x == ReadTLV(e.wire) IN x.st = "ok" /\ x.e = Len(e.wire) + 1)
-      /\ Check(t, i, "Headers", HeadersOk(T, e.wire))
+  IF e.st # "ok" THEN Check(t, i, "EncRefused", FALSE)
+  ELSE
+    LET x == ReadTLV(e.wire)
+        c1 == e.codec = "der" => e.wire = DER(T, v)
+        c2 == e.codec = "cer" => e.wire = CER(T, v)
+        c3 == ParsesTo("BER", T, e.wire, v, <<>>)
+        c4 == x.st = "ok" /\ x.e = Len(e.wire) + 1
+        c5 == HeadersOk(T, e.wire)
+    IN IF c1 /\ c2 /\ c3 /\ c4 /\ c5 THEN TRUE
+       ELSE /\ Check(t, i, "DerIdentity", c1) /\ Check(t, i, "CerCanonical", c2) /\ Check(t, i, "RefReads", c3)
+            /\ Check(t, i, "OneTLV", c4) /\ Check(t, i, "Headers", c5)
+            /\ LET D == Explains(T, v, e) IN
+                 IF D = {} THEN TRUE ELSE PrintT(<<"DEV", Cases[t].id, i, D>>)
 
 JudgeDec(t, i, T, v, e) ==
   /\ Check(t, i, "Crash", e.st # "crash")
